@@ -1,4 +1,3 @@
 package main
 
-func c24() {}
 func c25() {}
